@@ -41,6 +41,9 @@ class Scenario:
                         d.get("fmts", (None,)), d.get("mode", "th"), d.get("start_class"), d.get("cfg"))
 
 
+FAULT_KINDS = {"create", "wopen", "rename", "remove", "mkdir", "lock", "ropen"}
+
+
 class _LocalManager:
     """Stand-in for multiprocessing.Manager() inside scheduler-controlled runs (same `.list()` surface)."""
 
@@ -51,7 +54,7 @@ class _LocalManager:
 class Observation:
     __slots__ = ("outcomes", "okeys", "final", "final_key", "deadlock", "hang", "locked", "mutex_owned",
                  "trace", "points", "yield_points", "events", "followup", "harness_errors", "reader_values",
-                 "observer_findings", "cond_stats", "observer_stats", "removal_findings", "line_points")
+                 "observer_findings", "cond_stats", "observer_stats", "removal_findings", "line_points", "fault_fired")
 
 
 def outcome_key(op, out):
@@ -128,6 +131,13 @@ class ScenarioRunner:
         permanent address, no non-empty cid reference list may exist for it. Evaluated immediately before the
         operation executes, i.e. on the state the removing thread acts on."""
         root = self._root
+        if self._fault is not None:
+            wk = getattr(S._cur, "worker", None)
+            if wk is not None and wk.idx == self._fault[0] and op.kind in FAULT_KINDS and probe.under(root, op.path):
+                self._fault_count += 1
+                if self._fault_count == self._fault[1]:
+                    self._fault_fired = op.describe(root)
+                    raise probe.errno_error(self._fault[2], op)
         # staging discipline (C09): a file in a tmp directory belongs to the call that created it until it is
         # renamed away or removed; a second thread opening the same staging file for writing would publish a mix
         w = getattr(S._cur, "worker", None)
@@ -175,7 +185,7 @@ class ScenarioRunner:
                 return False
         return True
 
-    def run(self, chooser, calls=None, with_followup=True, line_level=False):
+    def run(self, chooser, calls=None, with_followup=True, line_level=False, fault=None):
         """Execute one schedule. calls: indices into scn.calls (default all)."""
         scn = self.scn
         idxs = list(range(len(scn.calls))) if calls is None else list(calls)
@@ -235,6 +245,9 @@ class ScenarioRunner:
         observer = self.observer_factory(self, store) if self.observer_factory else None
         self._removal_findings = []
         self._tmp_owner = {}
+        self._fault = fault           # (worker index, k-th eligible operation of that worker, errno) or None
+        self._fault_count = -1
+        self._fault_fired = None
         sch = S.Scheduler([make(i) for i in idxs], chooser, self.rundir, is_yield_op=self.is_yield_op,
                           observer=observer, pre_hook=self.removal_monitor)
         holder["s"] = sch
@@ -255,6 +268,7 @@ class ScenarioRunner:
         ob.points = list(sch.points)
         ob.yield_points = sch.yield_points
         ob.line_points = sch.line_points
+        ob.fault_fired = self._fault_fired
         ob.events = sch.events
         ob.harness_errors = [repr(w.error) for w in sch.workers if w.error is not None]
         ob.outcomes = [w.result if isinstance(w.result, Outcome) else None for w in sch.workers]
@@ -493,3 +507,46 @@ def explore_line_level(runner, rng, n, normalise=None):
             ch = S.RandomChooser(rng, rng.choice([0.01, 0.03, 0.08]))
         ob = runner.run(ch, line_level=True)
         yield ob, judge(runner, ob, normalise), True
+
+
+def hygiene_problems(runner, ob):
+    """C08 symptoms only (no sequential specification needed): deadlock, leaked claims / locks, blocked follow-up."""
+    if ob.harness_errors:
+        raise Inconclusive("harness error inside a worker: " + "; ".join(ob.harness_errors))
+    if ob.hang:
+        raise Inconclusive(f"watchdog: worker did not reach a yield point within {S.Scheduler.WATCHDOG_S}s: {ob.hang}")
+    probs = []
+    if ob.deadlock:
+        return [("deadlock", {"blocked": ob.deadlock, "locked_lists": ob.locked})]
+    if ob.locked or ob.mutex_owned:
+        probs.append(("leaked-lock", {"lists": ob.locked, "mutexes": ob.mutex_owned}))
+    for f in ob.followup:
+        probs.append(("follow-up-blocked", f))
+    return probs
+
+
+def explore_with_faults(runner, rng, bound, n_random, errno_code):
+    """For each call of the scenario and each fault site of that call: schedules (preemption-bounded DFS + random) in
+    which that one operation fails with an OSError while the other call runs concurrently. Yields
+    (observation, problems, faulted worker, site)."""
+    ncalls = len(runner.scn.calls)
+    for wk in range(ncalls):
+        k = 0
+        while True:
+            ob = runner.run(S.OrderChooser([1 - wk if ncalls == 2 else (wk + 1) % ncalls, wk]), fault=(wk, k, errno_code))
+            if ob.fault_fired is None:
+                break           # the call has fewer than k+1 fault sites
+            yield ob, hygiene_problems(runner, ob), wk, k
+            stack = [[]] if bound > 0 else []
+            n = 0
+            while stack and n < 400:
+                prefix = stack.pop()
+                ob = runner.run(S.PrefixChooser(prefix), fault=(wk, k, errno_code))
+                n += 1
+                yield ob, hygiene_problems(runner, ob), wk, k
+                for p in S.dfs_prefixes(ob.points, len(prefix), 0, bound):
+                    stack.append(p)
+            for _ in range(n_random):
+                ob = runner.run(S.RandomChooser(rng, rng.choice([0.1, 0.3, 0.5])), fault=(wk, k, errno_code))
+                yield ob, hygiene_problems(runner, ob), wk, k
+            k += 1
